@@ -50,6 +50,8 @@ def cmp_tables(ctx):
     for c in TEXT_CLASSES:
         plan.append((c, "text", [o for o in text if no0(o)]))
     plan.append(("mbuff", "text", text))
+    for c in ("str_nul", "ustr_nul"):
+        plan.append((c, "laws", text))      # incl. texts with embedded NUL: laws only
     plan.append(("objpair", "pair", [o for o in pair if no0(o)]))
     for c in LIST_CLASSES:
         plan.append((c, "laws", [o for o in text if o["null"] or not o["v"] or o["v"][-1] != 0]))
